@@ -197,6 +197,7 @@ pub open spec fn wanted(h: HMap) -> Option<Seq<u8>> { if h.contains_key("grpc-en
 
 def build():
     u = Unit('compression', ['C05'])
+    u.fn_guard('tonic/src/codec/compression.rs', 'split_by_comma', "fn split_by_comma(s: &str) -> impl Iterator<Item = &str> { s.split(',').map(|s| s.trim()) }", why='A-std-split-01')
     common.http_base(u)
     common.metadata_core(u)
     common.status_decls(u)
